@@ -244,8 +244,8 @@ def pending_owner(ctx):
     for name, fn in sorted(c.methods.items()):
         clears = [a for a in walk_local(fn) if isinstance(a, ast.Assign) and is_const(a.value) and const(a.value) is None
                   and any((dotted(t) or '').startswith('self.pending_') for t in a.targets)]
-        if name == '__init__':
-            continue
+        if name in ('__init__', 'reset', 'on_hci_reset_command'):
+            continue  # wholesale (re)initialisation of the controller is not the end of one procedure
         for a in clears:
             slot = next(dotted(t) for t in a.targets if (dotted(t) or '').startswith('self.pending_'))
             n += 1
